@@ -31,8 +31,9 @@ type Wire struct {
 	// the ordering of simultaneous messages).
 	BFirst bool
 	// Seen records every message written, in order.
-	Seen []WireMsg
-	next int
+	Seen  []WireMsg
+	next  int
+	round int
 }
 
 // WireMsg is one observed message.
@@ -40,6 +41,9 @@ type WireMsg struct {
 	Idx   int
 	FromA bool
 	Bytes []byte
+	// Round is the pump round in which the message was taken off its endpoint:
+	// messages of one round were all written before any of them was delivered.
+	Round int
 }
 
 // NewWire creates the endpoints (no goroutine started yet).
@@ -99,6 +103,7 @@ func (w *Wire) Pump(maxRounds int) int {
 			break
 		}
 		rounds++
+		w.round++
 		if w.BFirst {
 			for _, m := range mb {
 				w.dispatch(false, m)
@@ -120,7 +125,7 @@ func (w *Wire) Pump(maxRounds int) int {
 func (w *Wire) dispatch(fromA bool, m []byte) {
 	idx := w.next
 	w.next++
-	w.Seen = append(w.Seen, WireMsg{idx, fromA, m})
+	w.Seen = append(w.Seen, WireMsg{idx, fromA, m, w.round})
 	var toB, toA [][]byte
 	if w.OnMsg != nil {
 		toB, toA = w.OnMsg(idx, fromA, m)
